@@ -35,7 +35,7 @@ def scratch_dir(tag):
     return d
 
 
-def build(features=None, toolchain=None, extra=None, target_dir=None, bins=None):
+def build(features=None, toolchain=None, extra=None, target_dir=None, bins=None, rustflags=None, subdir="release"):
     """cargo build of the harness against /repo's working tree. Returns the directory of binaries."""
     cmd = ["cargo"]
     if toolchain:
@@ -51,6 +51,8 @@ def build(features=None, toolchain=None, extra=None, target_dir=None, bins=None)
     if extra:
         cmd += extra
     env = dict(ENV)
+    if rustflags:
+        env["RUSTFLAGS"] = rustflags  # replaces the config file's flags: must carry --cfg memvid_verif itself
     tdir = target_dir or os.path.join(HARNESS, "target")
     env["CARGO_TARGET_DIR"] = tdir
     t0 = time.time()
@@ -59,7 +61,7 @@ def build(features=None, toolchain=None, extra=None, target_dir=None, bins=None)
         tail = "\n".join(p.stdout.splitlines()[-40:])
         raise Inconclusive(f"build failed ({' '.join(cmd)}):\n{tail}")
     log(f"[build] {' '.join(cmd[1:])} ok in {time.time() - t0:.0f}s")
-    return os.path.join(tdir, "release")
+    return os.path.join(tdir, subdir)
 
 
 def run_monitor(argv, out_path, timeout, env=None, cwd=None):
